@@ -184,7 +184,16 @@ def oracle(ctx, name, line, ans):
                 elif l[0] == "ext" and l[1] >= 0xFFF00 and kd == "ram":
                     extra.append(("int", l[1] - 0xFFF00))
         if q[0] == "s":
-            seen_load.clear()
+            # frame: a store may change only the locations it addresses (and their documented aliases); loads of other
+            # locations keep their value.  Accesses under a listed multi-byte defect family invalidate everything.
+            if fam:
+                seen_load.clear()
+            else:
+                touched = set(locs) | set(extra)
+                for key in [key for key, (_, cells, _) in seen_load.items() if cells & touched]:
+                    del seen_load[key]
+                for key in seen_load:
+                    seen_load[key] = (seen_load[key][0], seen_load[key][1], op)
             v = int(q[3])
             for i, (l, kd) in enumerate(zip(locs, kinds)):
                 if fam:
@@ -201,11 +210,16 @@ def oracle(ctx, name, line, ans):
             continue
         got = int(ob)
         # reading is not an operation on memory: the same load, with no store in between, returns the same value
-        if (a, bits) in seen_load and seen_load[(a, bits)] != got:
-            ctx.report([name, "load_value_changes_without_a_store"], f"{name}: {op} reads {got:#x}; the same load read {seen_load[(a, bits)]:#x} before and nothing was stored in between",
-                       {"case": " ".join([cfg] + ops[:k + 1]), "got": got, "expected": seen_load[(a, bits)]})
+        if (a, bits) in seen_load and seen_load[(a, bits)][0] != got:
+            before, _, st = seen_load[(a, bits)]
+            if st is None:
+                ctx.report([name, "load_value_changes_without_a_store"], f"{name}: {op} reads {got:#x}; the same load read {before:#x} before and nothing was stored in between",
+                           {"case": " ".join([cfg] + ops[:k + 1]), "got": got, "expected": before})
+            else:
+                ctx.report([name, "store_changes_another_location"], f"{name}: {op} reads {got:#x}; the same load read {before:#x} before and the only stores since (last: {st}) address other locations",
+                           {"case": " ".join([cfg] + ops[:k + 1]), "got": got, "expected": before})
             return
-        seen_load[(a, bits)] = got
+        seen_load[(a, bits)] = (got, frozenset(locs) | frozenset(extra), None)
         if bits != 20 and fam is None and all(kd == "rom" for kd in kinds):
             # read-only window: whatever is read there first is what must be read there ever after, whatever was stored in between
             for i, l in enumerate(locs):
